@@ -230,6 +230,7 @@ def highestbar(
 
         if high is None:
             high = current
+            distance = idx
 
         if high < current:
             high = current
@@ -259,6 +260,7 @@ def lowestbar(
 
         if low is None:
             low = current
+            distance = idx
 
         if low > current:
             low = current
